@@ -30,9 +30,11 @@ ANCHORS = ["pyflyby._imports2s:SourceToSourceFileImportsTransformation.preproces
            "pyflyby._imports2s:SourceToSourceTransformationBase._from_source_code",
            "pyflyby._parse:PythonBlock.concatenate", "pyflyby._parse:PythonBlock.groupby",
            "pyflyby._parse:PythonBlock.statements", "pyflyby._parse:_split_code_lines",
-           "pyflyby._file:FileText.concatenate"]
+           "pyflyby._file:FileText.concatenate",
+           "pyflyby._imports2s:transform_imports", "pyflyby._imports2s:canonicalize_imports",
+           "pyflyby._imports2s:reformat_import_statements"]
 
-TOOLS = ["reformat", "reformat_str", "reformat_ft", "tidy", "star", "broken", "transform", "canonicalize", "cli_reformat", "cli_tidy"]
+TOOLS = ["reformat", "reformat_str", "reformat_ft", "tidy", "star", "broken", "transform", "canonicalize", "transform_map", "canonicalize_map", "cli_reformat", "cli_tidy"]
 
 # internal errors that belong to C03 (block selection / import-set algebra; F23, F24): counted, not judged here
 C03_EXCEPTIONS = {"LineNumberAmbiguousError", "ConflictingImportsError", "OutputUnparsable"}
@@ -79,6 +81,39 @@ WITNESSES = [
 MAX_MODEL_CHARS = 6000
 
 
+# rename keys that never apply: their first component is used by no generated import and the key
+# never occurs as a whole word; look-alikes with another character in place of the dot do occur
+RENAME_KEYS = ["zq.w", "k9.vv", "qq.r.s", "zq.w.k9"]
+
+
+def lookalikes(r, key):
+    alts = [key.replace(".", c) for c in ("_", "/", "-", "X", " ", "$", "..")]
+    ident = key.replace(".", "_")
+    lines = ["%s = 1" % ident,
+             "s = '%s %s'" % (r.choice(alts), r.choice(alts)),
+             "# %s %s %s" % (r.choice(alts), r.choice(alts), key.replace(".", "Z")),
+             'print(%s, "%s")  # %s' % (ident, key.replace(".", "/"), key.replace(".", "-")),
+             "def f_%s():\n    return %s + %s" % (ident, ident, key.replace(".", "X"))]
+    r.shuffle(lines)
+    return lines[:r.randint(2, 5)]
+
+
+def with_rename_map(r, src):
+    """(src', map): src with look-alike lines added (one comment at the top, the rest at the end),
+    and a non-empty rename map none of whose keys occurs as a whole word in src'."""
+    import re
+    keys = r.sample(RENAME_KEYS, r.randint(1, 2))
+    m = {k: r.choice(["n.y", "renamed", "pp.%s" % k.replace(".", "_")]) for k in keys}
+    body = src if src.endswith("\n") else src + "\n"
+    extra = []
+    for k in keys:
+        extra += lookalikes(r, k)
+    new = "# %s\n" % keys[0].replace(".", "_") + body + "\n".join(extra) + ("\n" if r.random() < .8 else "")
+    if not G.compiles(new) or any(re.search(r"\b%s\b" % re.escape(k), new) for k in keys):
+        return None, None
+    return new, m
+
+
 def gen_cases(ctx, n, ncorpus=0):
     cases = []
     if ncorpus != 0:
@@ -94,8 +129,14 @@ def gen_cases(ctx, n, ncorpus=0):
     for tag, tool, src in WITNESSES:
         cases.append({"kind": "witness", "tag": tag, "tool": tool, "src": src, "sp": [1, 1], "params": {}, "db": 2 if tag in ("bytes1", "bytes2", "bytes3", "fstr1") else 3 if tag.startswith("doc") or tag in ("top", "comment_only_first", "F39", "F39b", "F39c", "F39d", "F9", "deco", "bytes4", "concat1") else 0,
                       "flags": [True, True, True]})
+    for tag, tool, src, m in [
+            ("map1", "transform_map", "import os\nm_x = 1\ns = 'm/x'  # m-x mXx\nprint(m_x)\n", {"m.x": "n.y"}),
+            ("map2", "canonicalize_map", "# a_b\nimport os, sys\na_b = 'a/b a-b'\n", {"a.b": "c.d", "zq.w": "renamed"}),
+            ("map3", "transform_map", "x = 1\nzq_w = 2  # zq$w zq..w\n", {"zq.w": "n.y"})]:
+        cases.append({"kind": "witness", "tag": tag, "tool": tool, "src": src, "sp": [1, 1], "params": {}, "db": 0,
+                      "flags": [True, True, True], "map": m})
     i = 0
-    ntotal = len(cases) + n + len(WITNESSES)
+    ntotal = len(cases) + n
     while len(cases) < ntotal:
         r = cm.rng(ctx.seed, "c01", i)
         i += 1
@@ -103,11 +144,18 @@ def gen_cases(ctx, n, ncorpus=0):
         k = r.random()
         tool = ("reformat" if k < .2 else "reformat_ft" if k < .25 else "tidy" if k < .62 else "reformat_str" if k < .7 else "star" if k < .77
                 else "broken" if k < .84 else "transform" if k < .91 else "canonicalize" if k < .95 else "cli_reformat" if k < .975 else "cli_tidy")
+        rmap = None
+        if r.random() < .12:
+            src2, rmap = with_rename_map(r, src)
+            if rmap is not None:
+                src, tool = src2, r.choice(["transform_map", "canonicalize_map"])
         sp = [1, 1]
         if tool in ("reformat", "transform") and r.random() < .15:
             sp = [r.randint(2, 30), r.choice([1, 1, 4])]
         cases.append({"kind": "gen", "i": i, "tool": tool, "src": src, "sp": sp, "params": r.choice(PARAMS),
                       "db": r.randrange(len(DBS)), "flags": [r.random() < .5, r.random() < .5, r.random() < .5]})
+        if tool in ("transform_map", "canonicalize_map"):
+            cases[-1]["map"] = rmap
     return cases
 
 
@@ -187,6 +235,11 @@ def impl_case(c):
                         res = S.remove_broken_imports(block, params=params)
                     elif tool == "transform":
                         res = S.transform_imports(block, {}, params=params)
+                    elif tool == "transform_map":
+                        res = S.transform_imports(block, dict(c["map"]), params=params)
+                    elif tool == "canonicalize_map":
+                        res = S.canonicalize_imports(block, params=params,
+                                                     db=ImportDB("import os\n__canonical_imports__ = %r\n" % (dict(c["map"]),)))
                     elif tool == "canonicalize":
                         res = S.canonicalize_imports(block, params=params, db=ImportDB(DBS[c["db"]]))
                     else:
@@ -453,7 +506,9 @@ def run(ctx):
     n = (700 if ctx.quick else 12000) * scale
     ncorpus = 60 * scale if ctx.quick else None
     ctx.coverage["rule"] = ("generated statement soups with 0-4 import runs and docstring/comment prologues x tool in {reformat (PythonBlock / str), "
-                            "tidy with random flags and one of 4 small DBs, replace_star, remove_broken, transform({}), canonicalize} x 6 formatting "
+                            "tidy with random flags and one of 4 small DBs, replace_star, remove_broken, transform({}), canonicalize, transform / canonicalize with a "
+                            "non-empty rename map whose dotted keys apply to no import and occur nowhere as a whole word while look-alikes with another "
+                            "character in place of the dot occur in identifiers, strings and comments} x 6 formatting "
                             "parameter sets; every SourceToSourceFileImportsTransformation created by the tool is one model evaluation (open mode); "
                             "non-trivial = the module has a top-level import statement or a block was inserted; distinct by hash of the case")
     ctx.assumptions += [
